@@ -55,9 +55,12 @@ class PropertyModTrackerPlugin(Plugin):
 
         for prop in versioned_column_properties(parent_obj):
             if has_changes(parent_obj, prop.key) or is_deleted or is_new:
+                # The flag attribute is keyed by the table column's key (see
+                # create_mod_column), which differs from the property key
+                # for columns mapped under another attribute name.
                 setattr(
                     version_obj,
-                    prop.key + self.column_suffix,
+                    prop.columns[0].key + self.column_suffix,
                     True
                 )
 
